@@ -313,6 +313,10 @@ func (m *ReconcilePod) podDelete(ctx context.Context, namespacedName client.Obje
 		if prePodENI.Status.Phase == v1beta1.ENIPhaseDetaching {
 			return reconcile.Result{}, nil
 		}
+		if prePodENI.Status.Phase == v1beta1.ENIPhaseUnbind {
+			// already detached, nothing to do until the pod comes back or the record is collected
+			return reconcile.Result{}, nil
+		}
 		prePodENICopy := prePodENI.DeepCopy()
 		prePodENICopy.Status.Phase = v1beta1.ENIPhaseDetaching
 		err = m.client.Status().Update(ctx, prePodENICopy)
